@@ -83,3 +83,64 @@ MUTANTS = [
          old="        elif isinstance(key, bool):\n            if bool(key):\n                return 'true'\n            else:\n                return 'false'\n        elif isinstance(key, int):\n            return repr(key)",
          new="        elif isinstance(key, int):\n            return repr(key)"),
 ]
+
+MUTANTS += [
+    # ---- C06: delete the version test in each of the four places
+    dict(name='c06_no_version_check_nested_build_file', props=['C06', 'C01'], file=FB,
+         old="        if (not JsonUtil.is_equal(\n                self._old_cache.get_func_version(operation.func_name),\n                self._new_cache.get_func_version(operation.func_name)) or\n                (not operation.raised and",
+         new="        if ((not operation.raised and"),
+    dict(name='c06_no_version_check_nested_subbuild', props=['C06', 'C01'], file=FB,
+         old="        if (not JsonUtil.is_equal(\n                self._old_cache.get_func_version(operation.func_name),\n                self._new_cache.get_func_version(operation.func_name)) or\n\n                # If setup failed, then the conditions that gave rise to the\n                # failure might no longer hold. See SetupFailedTest for an\n                # example.\n                operation.setup_failed):",
+         new="        if (operation.setup_failed):"),
+    dict(name='c06_no_version_check_build_file_lookup', props=['C06', 'C01'], file=FB,
+         old="                cached_operation.func_name == operation.func_name and\n                JsonUtil.is_equal(\n                    self._old_cache.get_func_version(operation.func_name),\n                    self._new_cache.get_func_version(operation.func_name)) and\n",
+         new="                cached_operation.func_name == operation.func_name and\n"),
+    dict(name='c06_no_version_check_subbuild_lookup', props=['C06', 'C01'], file=FB,
+         old="        if (cached_operation is not None and not cached_operation.raised and\n                JsonUtil.is_equal(\n                    self._old_cache.get_func_version(operation.func_name),\n                    self._new_cache.get_func_version(operation.func_name)) and\n                self._are_suboperations_cached(",
+         new="        if (cached_operation is not None and not cached_operation.raised and\n                self._are_suboperations_cached("),
+    dict(name='c06_versions_compared_with_python_eq', props=['C06'], file=FB,
+         old="        if (cached_operation is not None and not cached_operation.raised and\n                JsonUtil.is_equal(\n                    self._old_cache.get_func_version(operation.func_name),\n                    self._new_cache.get_func_version(operation.func_name)) and\n                self._are_suboperations_cached(",
+         new="        if (cached_operation is not None and not cached_operation.raised and\n                (self._old_cache.get_func_version(operation.func_name) ==\n                    self._new_cache.get_func_version(operation.func_name)) and\n                self._are_suboperations_cached("),
+]
+
+MUTANTS += [
+    # ---- C08
+    dict(name='c08_no_assert_no_repeats', props=['C08'], file=CACHE,
+         old="        with self._files_lock, self._subbuilds_lock:\n            self._assert_no_repeats(operation)\n            self._use_cached_operation(operation)",
+         new="        with self._files_lock, self._subbuilds_lock:\n            self._use_cached_operation(operation)"),
+    dict(name='c08_setup_failed_records_registered', props=['C08'], file=CACHE,
+         old="            if not operation.setup_failed:\n                subbuild_key = Cache.subbuild_key(operation)\n                subbuilds[subbuild_key] = operation\n            return operation",
+         new="            subbuild_key = Cache.subbuild_key(operation)\n            subbuilds[subbuild_key] = operation\n            return operation"),
+    dict(name='c08_setup_failed_child_reusable', props=['C08'], file=FB,
+         old="                # If setup failed, then the conditions that gave rise to the\n                # failure might no longer hold. See SetupFailedTest for an\n                # example.\n                operation.setup_failed):\n            return False\n\n        # Return False in the case where _subbuild raises\n        subbuild_key = Cache.subbuild_key(operation)\n        if self._new_cache.has_subbuild(subbuild_key):\n            return False\n",
+         new="                False):\n            return False\n\n        # Return False in the case where _subbuild raises\n        subbuild_key = Cache.subbuild_key(operation)\n        if not operation.setup_failed and self._new_cache.has_subbuild(subbuild_key):\n            return False\n"),
+    dict(name='c08_nested_dup_check_dropped', props=['C08'], file=FB,
+         old="        subbuild_key = Cache.subbuild_key(operation)\n        if self._new_cache.has_subbuild(subbuild_key):\n            return False\n\n        return self._are_suboperations_cached(operation, created_files)",
+         new="        return self._are_suboperations_cached(operation, created_files)"),
+    # ---- C10
+    dict(name='c10_failed_output_not_removed', props=['C10'], file=FB,
+         old="        self._build_dirs.error_building_file(filename)\n        FileBuilder._try_to_remove_file(filename)\n        logger.warning(",
+         new="        self._build_dirs.error_building_file(filename)\n        logger.warning("),
+    dict(name='c10_error_dirs_not_removed_at_commit', props=['C10'], file=FB,
+         old="        dirs_to_remove = set(norm_cased_error_created_dirs)\n        for dir_ in self._old_cache.created_dirs():",
+         new="        dirs_to_remove = set()\n        for dir_ in self._old_cache.created_dirs():"),
+    dict(name='c10_no_error_building_file_on_func_failure', props=['C10'], file=FB,
+         old="        operation.raised = True\n        self._build_dirs.error_building_file(filename)\n        FileBuilder._try_to_remove_file(filename)",
+         new="        operation.raised = True\n        FileBuilder._try_to_remove_file(filename)"),
+    dict(name='c10_make_dirs_no_undo', props=['C10'], file=FB,
+         old="            FileBuilder._remove_empty_dirs(made_dirs)\n            raise",
+         new="            raise"),
+    # ---- C13
+    dict(name='c13_metadata_only_size', props=['C13'], file=SOE,
+         old="            'size': stats.st_size,\n            'timeNs': stats.st_mtime_ns,",
+         new="            'size': stats.st_size,"),
+    dict(name='c13_hash_memo_ignores_is_built', props=['C13', 'C01'], file=SOE,
+         old="        if cache_entry is not None and cache_entry[1] == is_built:",
+         new="        if cache_entry is not None:"),
+    dict(name='c13_hash_read_uses_metadata', props=['C13'], file=SOE,
+         old="        elif file_comparison_name == 'HASH':\n            return self._file_hash(filename)",
+         new="        elif file_comparison_name == 'HASH':\n            return self._file_metadata(filename)"),
+    dict(name='c13_output_integrity_mtime_seconds', props=['C13'], file=SOE,
+         old="            'timeNs': stats.st_mtime_ns,",
+         new="            'timeNs': stats.st_mtime_ns // 10**9,"),
+]
